@@ -199,7 +199,14 @@ func handleLine(cur **Contract, out *[]*Contract, pkgPath, text, line string) er
 	if i := strings.IndexAny(text, " \t"); i >= 0 {
 		kw, rest = text[:i], strings.TrimSpace(text[i+1:])
 	}
-	if kw == "spec" || kw == "ghost" {
+	if kw == "spec" || kw == "ghost" || kw == "frame" || kw == "owned" {
+		return nil
+	}
+	if kw == "copy" {
+		*cur = nil
+		return nil
+	}
+	if *cur == nil && (kw == "shared" || kw == "fresh" || kw == "copied" || kw == "rebound" || kw == "derived" || kw == "zero" || kw == "property") {
 		return nil
 	}
 	if kw == "func" {
